@@ -51,7 +51,7 @@ Lemma sample_cells_written C st L r c :
   written (fp_sample C st L) B_DST (r * st + c).
 Proof.
   intros Hr Hc. exists (wr B_DST (r * st + c) 1 1). split; [|apply covers_wr; lia].
-  unfold fp_sample. apply in_flat_map. exists r. split; [apply In_zrange; lia|].
+  unfold fp_sample. cbv zeta. apply in_or_app. left. apply in_flat_map. exists r. split; [apply In_zrange; lia|].
   apply in_map_iff. exists c. split; [reflexivity | apply In_zrange; lia].
 Qed.
 
